@@ -89,9 +89,9 @@ PROPS["C08"] = {
 }
 
 PROPS["C13"] = {
-    "modules": ["CC.Props.C13", "CC.Props.C13Len"],
+    "modules": ["CC.Props.C13", "CC.Props.C13Len", "CC.Props.C13Reach"],
     "campaigns": [hist("C13", BOTH), {"name": "golden", "configs": BOTH}],
-    "level_text": "Lean theorems over the byte-level wire model: LEB128 round trip on the whole u64 range, and decode(encode x ++ rest) = (x, rest) for attributes, dimensions, access structures (V1 and V2), right keys, encapsulations (classic / hybridised), encrypted and cleartext headers (absent = empty metadata), public keys, master keys and user keys, for all well-formed values of any size; and the announced length: the formulas of every `length()` of the code (CC.Model.WireLen, computed without serialising) equal the length of the encoding for every well-formed object (CC.Props.C13Len). Correspondence: every object produced in random histories is serialised by the real code and decoded + re-encoded byte-exactly by the model, whose model of `length()` must give the value the real `length()` announces (and that value the number of bytes written; equality after round trip on the real side), round trips injected at random points of histories, and the golden corpus serialised by the pinned release is read and used by the current code and read by the model (a test on samples, labelled as such)",
+    "level_text": "Lean theorems over the byte-level wire model: LEB128 round trip on the whole u64 range, and decode(encode x ++ rest) = (x, rest) for attributes, dimensions, access structures (V1 and V2), right keys, encapsulations (classic / hybridised), encrypted and cleartext headers (absent = empty metadata), public keys, master keys and user keys, for all well-formed values of any size; and the announced length: the formulas of every `length()` of the code (CC.Model.WireLen, computed without serialising) equal the length of the encoding for every well-formed object (CC.Props.C13Len); over every history (CC.Props.C13Reach): the master key of every world reachable from setup by any operations with any arguments, laid out on the wire with any leaf representation of the configuration's sizes (CC.Model.Embed), is a well-formed wire object and round-trips, so do the public key derived from it and every user key handed out; the wire layout determines the symbolic key, hence continuing any history from the reloaded master key yields step by step the same worlds (store_load_is_invisible; hypotheses left: counts and name lengths below 2^64). Correspondence: every object produced in random histories is serialised by the real code and decoded + re-encoded byte-exactly by the model, whose model of `length()` must give the value the real `length()` announces (and that value the number of bytes written; equality after round trip on the real side), round trips injected at random points of histories, and the golden corpus serialised by the pinned release is read and used by the current code and read by the model (a test on samples, labelled as such)",
     "level_note": "leaf (scalar / point / ML-KEM) encodings are opaque fixed-size blobs with an abstract validity predicate; Rust's String::from_utf8 is modelled by Lean's String.validateUTF8",
 }
 PROPS["C14"] = {
